@@ -119,11 +119,16 @@ impl InputGenerator {
     /// (the previous byte matters only when it is ESC, CR or LF; see `Utf8Accum::__verif_canonicalize`)
     pub fn __verif_canonical_hash(&self) -> u64 {
         let mut c = self.clone();
-        if c.last_byte != codes::ESCAPE && c.last_byte != codes::CARRIAGE_RETURN && c.last_byte != codes::LINE_FEED {
-            c.last_byte = 0;
-        }
-        c.utf8.__verif_canonicalize();
+        c.__verif_canonicalize();
         crate::editor::__verif_hash_of(&c)
+    }
+
+    /// Zero what cannot influence any future call
+    pub fn __verif_canonicalize(&mut self) {
+        if self.last_byte != codes::ESCAPE && self.last_byte != codes::CARRIAGE_RETURN && self.last_byte != codes::LINE_FEED {
+            self.last_byte = 0;
+        }
+        self.utf8.__verif_canonicalize();
     }
 }
 
